@@ -7,13 +7,13 @@ CONFIG = {
     'rule': 'arc cases: an entry list written with archive/zip (Store, Deflate) or archive/tar into memory, opened with '
             'zipfs.New / tarfs.New, and a program. (A) exhaustive: every op sequence of length<=2 (quick) / <=3 (thorough) over 23 '
             'templates (Read/ReadAt/Seek/Close/Open; offsets -1..9, all whence values incl. 3) on a 3-byte file with 2-3 handles; '
-            '(B) 260 (quick) / 6000 (thorough) archives of 0-12 entries, depth<=3, sizes 0/1/2-9/100/70000, explicit and implicit '
+            '(B) 260 (quick) / 3000 (thorough) archives of 0-12 entries, depth<=3, sizes 0/1/2-9/100/70000, explicit and implicit '
             'directories, header names needing cleaning (./a, /a, a//b, a/./b, zz/../a, trailing /), pairwise different cleaned '
             'paths; per archive and format: B1 Stat of every entry and of missing names, Open+Readdir/Readdirnames with counts '
             '-1,0,1,2,3,100 on the root and every directory entry, Readdir on files; B2 two read programs of 4-30 ops over up to 5 '
             'interleaved handles (chunks 0..70001, ReadAt offsets -2..size+5, Seek whence 0,1,2,3,-1) followed by two successive '
             'open/read-to-EOF/close rounds; B3 every mutating Fs and File method, then the whole view is re-read; '
-            '(C) 120 (quick) / 2500 (thorough) archives with duplicate cleaned paths, entries named like the root, members below '
+            '(C) 120 (quick) / 1500 (thorough) archives with duplicate cleaned paths, entries named like the root, members below '
             'files (correspondence and panics only). distinct = hash of (format, entries, program); non-trivial = the archive has '
             'an entry and some call returned bytes or a non-empty listing',
     'trusted_base': ['archive/zip and archive/tar (writers and readers): File.Name/FileInfo/UncompressedSize64/Open and '
